@@ -300,7 +300,21 @@ def c06(pid, tier, seed):
     )
 
 
-EXTRA["C06"] = c06
+def c06_with_lemma(pid, tier, seed):
+    """c06 + the handshake lemma (degrees sum to sizes), a Lean lemma over the invariants UInv / DInv."""
+    base = c06(pid, tier, seed)
+    from . import leanvc
+    lem = leanvc.provider("C06", [])(pid, tier, seed)
+    base["obligations"] += lem["obligations"]
+    base["trusted"] = list(base.get("trusted", [])) + lem["trusted"]
+    base["assumptions"] = [a for a in base.get("assumptions", []) if "handshake identity" not in a] + [
+        "the handshake identity (degrees sum to sizes, directed: out-degrees to tail sizes, in-degrees to head sizes) is a Lean lemma from the two-way clause of "
+        "UInv / DInv (double counting, Mathlib); the invariant itself is C01 / C02, the statistic definitions are proved here; also checked bounded"]
+    base["functions"] = sorted(set(base.get("functions", [])) | set(lem.get("functions", [])))
+    return base
+
+
+EXTRA["C06"] = c06_with_lemma
 
 
 
